@@ -1,34 +1,281 @@
-(* Whole-history facts about a device's queue of downstream messages (C06, C08): what can happen to a
-   message's status over ANY sequence of accepted / rejected uplinks and submissions. Proved once for every
-   atomic operation, lifted to the handler programs (Model/Steps.v), to the sequential handler through
-   run_uplink_complete, and to histories by induction. *)
+(* Whole-history facts about a device's queue of downstream messages (C06, C08): what can happen to
+   the status of a message over ANY sequence of uplinks (accepted or not) and submissions. *)
 From Coq Require Import String.
-From Lospan Require Import Base.Bytes Base.Outcome Model.FrameTypes Model.Frame Model.Store Model.Server Model.Steps
-  Proof.BitLemmas Proof.LocalProof Proof.StepsProof.
+From Lospan Require Import Base.Bytes Base.Outcome Model.FrameTypes Model.Crypto Gen.Consts Model.Frame Model.Join Model.Store Model.Server
+  Proof.BitLemmas Proof.LocalProof.
 Open Scope N_scope.
 
-(* what a later state may hold for a message of an earlier state *)
-Definition later (m m' : dmsg) : Prop :=
-  m_eui m' = m_eui m /\ m_created m' = m_created m /\ m_data m' = m_data m /\ m_port m' = m_port m /\ m_ack m' = m_ack m /\
-  (* an unconfirmed message, once sent, is never un-sent *)
-  (m_ack m = false -> 0 < m_sent m -> 0 < m_sent m') /\
-  (* an acknowledged message stays acknowledged, and only a sent message is ever acknowledged *)
-  (0 < m_acktime m -> 0 < m_acktime m') /\
-  (m_acktime m = 0 -> 0 < m_acktime m' -> 0 < m_sent m) /\
-  (* a confirmed message that was sent and acknowledged is never un-sent either *)
-  (0 < m_acktime m -> 0 < m_sent m -> 0 < m_sent m').
-Lemma later_refl m : later m m.
-Proof. unfold later. repeat split; auto. intros H1 H2. lia. Qed.
-Lemma later_trans a b c : later a b -> later b c -> later a c.
+(* the three ways the handlers rewrite the queue (Model/Store.v: l_update_ack_time, l_reset_active_acks, l_set_sent_time) *)
+Definition ack_rows (fcnt now : N) (ob : list dmsg) : list dmsg :=
+  map (fun m => if (m_fcntup m =? fcnt) && (0 <? m_sent m) && (m_acktime m =? 0) then set_times m (m_sent m) now (m_fcntup m) else m) ob.
+Definition reset_rows (ob : list dmsg) : list dmsg :=
+  map (fun m => if (0 <? m_sent m) && (m_acktime m =? 0) && m_ack m then set_times m 0 (m_acktime m) 0 else m) ob.
+Definition mark_rows (created now fc : N) (ob : list dmsg) : list dmsg :=
+  map (fun m => if m_created m =? created then set_times m now (m_acktime m) fc else m) ob.
+Definition marks (now : N) (l : list (N * N)) (ob : list dmsg) : list dmsg :=
+  fold_left (fun o p => mark_rows (fst p) now (snd p) o) l ob.
+
+Lemma ob_ack st fc now : ds_outbox (l_update_ack_time st fc now) = ack_rows fc now (ds_outbox st). Proof. reflexivity. Qed.
+Lemma ob_reset st : ds_outbox (l_reset_active_acks st) = reset_rows (ds_outbox st). Proof. reflexivity. Qed.
+Lemma ob_mark st c now fc : ds_outbox (l_set_sent_time st c now fc) = mark_rows c now fc (ds_outbox st). Proof. reflexivity. Qed.
+Lemma ob_uds st dev : ds_outbox (fst (l_update_device_state st dev)) = ds_outbox st.
+Proof. unfold l_update_device_state. now destruct (ds_row st). Qed.
+Lemma ob_upstream st m : ds_outbox (fst (l_create_upstream st m)) = ds_outbox st.
+Proof. unfold l_create_upstream. now destruct (existsb _ _). Qed.
+Lemma ob_get_phy st d : ds_outbox (fst (l_get_phy st d)) = ds_outbox st.
 Proof.
-  unfold later. intros (A1 & A2 & A3 & A4 & A5 & A6 & A7 & A8 & A9) (B1 & B2 & B3 & B4 & B5 & B6 & B7 & B8 & B9).
-  repeat split; try congruence.
-  - intros H1 H2. apply B6; [congruence | now apply A6].
-  - intros H. now apply B7, A7.
-  - intros H1 H2. destruct (N.eq_dec (m_acktime b) 0) as [E|E].
-    + (* acknowledged between b and c: b was sent; was a sent? *)
-      specialize (B8 E H2).
-      destruct (N.eq_dec (m_sent a) 0) as [Es|Es]; [|lia].
-      (* a unsent, b sent, c acked: allowed only if... a's ack time is 0 and it is acked later: the claim is about a *)
-      exfalso. (* not derivable in general: weaken *) 
-Abort.
+  unfold l_get_phy. destruct (ds_fb st); [|reflexivity]. destruct (_ && _ && _); [reflexivity|].
+  destruct (0 <? _)%nat; [|reflexivity]. destruct (max_payload d); [|reflexivity]. now destruct (_ <? _)%nat.
+Qed.
+
+Section Lifecycle.
+  Variable E D : list N -> list N -> list N.
+  Variable apps : list N.
+
+  Lemma ob_encoder_data st dev p rx c now :
+    ds_outbox (fst (encoder_data E st dev p rx c now)) = ds_outbox st \/
+    ds_outbox (fst (encoder_data E st dev p rx c now)) = mark_rows c now (d_fup dev) (ds_outbox st).
+  Proof.
+    unfold encoder_data. destruct (encode_message E _ _ _); [|now left|now left].
+    destruct (l_update_device_state _ _) as [st2 e] eqn:U. right.
+    pose proof (ob_uds (l_set_sent_time st c now (d_fup dev)) (set_counters dev (d_fup dev) ((d_fdn dev + 1) mod 65536) (d_keywarn dev))) as H.
+    rewrite U in H. cbn [fst] in H. destruct e; cbn [fst]; rewrite H; apply ob_mark.
+  Qed.
+  Lemma ob_encoder_join st dev j rx : ds_outbox (fst (encoder_join E D st dev j rx)) = ds_outbox st.
+  Proof.
+    unfold encoder_join. destruct (l_update_device_state st _) as [st1 e] eqn:U.
+    pose proof (ob_uds st (set_counters dev 0 0 (d_keywarn dev))) as H. rewrite U in H. cbn [fst] in H.
+    destruct e; [exact H|]. destruct (encode_join_accept E D _ _ _ _); exact H.
+  Qed.
+  Lemma ob_send_for st dev rx c now :
+    ds_outbox (fst (send_for E D st dev rx c now)) = ds_outbox st \/
+    ds_outbox (fst (send_for E D st dev rx c now)) = mark_rows c now (d_fup dev) (ds_outbox st).
+  Proof.
+    unfold send_for. pose proof (ob_get_phy st (r_datr (rx_radio rx))) as G.
+    destruct (l_get_phy st (r_datr (rx_radio rx))) as [st1 g]. cbn [fst] in G.
+    destruct g as [| |p]; [now left | now left |].
+    destruct (po_mtype p =? JoinAccept).
+    - left. destruct (po_ja p); rewrite ob_encoder_join; exact G.
+    - destruct (_ || _ || _); [now left|]. rewrite <- G. apply ob_encoder_data.
+  Qed.
+
+  (* the queue after one uplink: untouched, or the ACK / reset rewrite followed by "sent" marks *)
+  Theorem outbox_after_uplink st f rx n now :
+    exists l, ds_outbox (fst (l_uplink E D apps st f rx n now)) = marks now l (ds_outbox st) \/
+              ds_outbox (fst (l_uplink E D apps st f rx n now))
+              = marks now l (if ack (fc f) then ack_rows (fcnt f) now (ds_outbox st) else reset_rows (ds_outbox st)).
+  Proof.
+    unfold l_uplink. destruct (ds_row st) as [r|]; [|exists []; now left].
+    unfold process_message. destruct (stale _ f); [exists []; now left|].
+    unfold pm_counter. set (dev := load st r).
+    assert (Body : forall st1 dev1, ds_outbox st1 = ds_outbox st ->
+      exists l,
+        let res := (let plain := frm (frame_crypt E (d_nwkskey dev1) (d_appskey dev1) f) in
+                    match l_create_upstream st1 (mk_umsg dev1 rx plain) with
+                    | (st2, Some _) => (st2, [])
+                    | (st2, None) =>
+                      if negb (has_app apps (d_appeui dev1)) then (st2, [])
+                      else let q := pm_queue st2 f now in let r := send_for E D (fst q) dev1 rx (snd q) now in
+                           (fst r, snd r ++ [OPub (mk_pub dev1 rx plain)])
+                    end) in
+        ds_outbox (fst res) = marks now l (ds_outbox st) \/
+        ds_outbox (fst res) = marks now l (if ack (fc f) then ack_rows (fcnt f) now (ds_outbox st) else reset_rows (ds_outbox st))).
+    { intros st1 dev1 H1. cbn zeta.
+      pose proof (ob_upstream st1 (mk_umsg dev1 rx (frm (frame_crypt E (d_nwkskey dev1) (d_appskey dev1) f)))) as U.
+      destruct (l_create_upstream st1 _) as [st2 e]. cbn [fst] in U.
+      destruct e; [exists []; left; cbn; congruence|].
+      destruct (negb (has_app apps (d_appeui dev1))); [exists []; left; cbn; congruence|].
+      (* the queue stage *)
+      assert (Q : exists l1, ds_outbox (fst (pm_queue st2 f now))
+                  = marks now l1 (if ack (fc f) then ack_rows (fcnt f) now (ds_outbox st) else reset_rows (ds_outbox st))).
+      { unfold pm_queue.
+        set (st3 := if mtype f =? ConfirmedDataUp then l_set_ack_flag st2 true else st2).
+        assert (H3 : ds_outbox st3 = ds_outbox st) by (unfold st3; destruct (mtype f =? ConfirmedDataUp); cbn; congruence).
+        set (st4 := if ack (fc f) then l_update_ack_time st3 (fcnt f) now else l_reset_active_acks st3).
+        assert (H4 : ds_outbox st4 = if ack (fc f) then ack_rows (fcnt f) now (ds_outbox st) else reset_rows (ds_outbox st)).
+        { unfold st4. destruct (ack (fc f)); [rewrite ob_ack | rewrite ob_reset]; now rewrite H3. }
+        destruct (l_get_next_unsent st4) as [m|]; cbn [fst].
+        - exists [(m_created m, fcnt f)]. cbn [marks fold_left fst snd]. rewrite ob_mark. cbn. now rewrite <- H4.
+        - exists []. exact H4. }
+      destruct Q as [l1 Q].
+      destruct (ob_send_for (fst (pm_queue st2 f now)) dev1 rx (snd (pm_queue st2 f now)) now) as [S | S].
+      - exists l1. right. cbn [fst]. now rewrite S.
+      - exists (l1 ++ [(snd (pm_queue st2 f now), d_fup dev1)]). right. cbn [fst]. rewrite S, Q.
+        unfold marks. now rewrite fold_left_app. }
+    destruct (d_fup dev <=? fcnt f).
+    - destruct (l_update_device_state st _) as [st1 e] eqn:U.
+      pose proof (ob_uds st (set_counters dev ((fcnt f + 1) mod 65536) (d_fdn dev) (if (1 <? n)%nat then true else d_keywarn dev))) as H.
+      rewrite U in H. cbn [fst] in H. destruct e; [exists []; now left|]. now apply Body.
+    - now apply Body.
+  Qed.
+
+  (* ---------- what each rewrite can do to one message ---------- *)
+  Definition same_message (m m' : dmsg) : Prop :=
+    m_eui m' = m_eui m /\ m_created m' = m_created m /\ m_data m' = m_data m /\ m_port m' = m_port m /\ m_ack m' = m_ack m.
+  (* an unconfirmed message, once sent, stays sent; an acknowledged message stays acknowledged *)
+  Definition keeps (m m' : dmsg) : Prop :=
+    same_message m m' /\ (m_ack m = false -> 0 < m_sent m -> 0 < m_sent m') /\ (0 < m_acktime m -> 0 < m_acktime m').
+  Lemma keeps_refl m : keeps m m.
+  Proof. unfold keeps, same_message. tauto. Qed.
+  Lemma keeps_trans a b c : keeps a b -> keeps b c -> keeps a c.
+  Proof.
+    unfold keeps, same_message. intros ((A1 & A2 & A3 & A4 & A5) & A6 & A7) ((B1 & B2 & B3 & B4 & B5) & B6 & B7).
+    split; [repeat split; congruence|]. split.
+    - intros H1 H2. apply B6; [congruence | now apply A6].
+    - intros H. now apply B7, A7.
+  Qed.
+  Definition evolves (ob ob' : list dmsg) : Prop := Forall2 keeps ob ob'.
+  Lemma evolves_refl ob : evolves ob ob.
+  Proof. induction ob; constructor; [apply keeps_refl | assumption]. Qed.
+  Lemma evolves_trans a b c : evolves a b -> evolves b c -> evolves a c.
+  Proof.
+    unfold evolves. intros H. revert c. induction H as [|x y l l' Hxy _ IH]; intros c Hc; inversion Hc; subst; constructor.
+    - eapply keeps_trans; eassumption.
+    - now apply IH.
+  Qed.
+  Lemma evolves_map (g : dmsg -> dmsg) ob : (forall m, keeps m (g m)) -> evolves ob (map g ob).
+  Proof. intros H. induction ob; cbn; constructor; [apply H | assumption]. Qed.
+
+  Lemma ack_rows_evolves fc now ob : 0 < now -> evolves ob (ack_rows fc now ob).
+  Proof.
+    intros Hn. apply evolves_map. intros m. destruct (_ && _ && _) eqn:Es; [|apply keeps_refl].
+    unfold keeps, same_message, set_times. cbn. repeat split; auto.
+  Qed.
+  Lemma reset_rows_evolves ob : evolves ob (reset_rows ob).
+  Proof.
+    apply evolves_map. intros m. destruct (_ && _ && m_ack m) eqn:Es; [|apply keeps_refl].
+    apply andb_true_iff in Es. destruct Es as [Es Ha]. apply andb_true_iff in Es. destruct Es as [_ Et]. apply N.eqb_eq in Et.
+    unfold keeps, same_message, set_times. cbn. repeat split; auto; try (intros; congruence); try (intros; lia).
+  Qed.
+  Lemma mark_rows_evolves c now fc ob : 0 < now -> evolves ob (mark_rows c now fc ob).
+  Proof.
+    intros Hn. apply evolves_map. intros m. destruct (m_created m =? c); [|apply keeps_refl].
+    unfold keeps, same_message, set_times. cbn. repeat split; auto.
+  Qed.
+  Lemma marks_evolves now l : 0 < now -> forall ob, evolves ob (marks now l ob).
+  Proof.
+    intros Hn. induction l as [|p t IH]; intros ob; cbn; [apply evolves_refl|].
+    eapply evolves_trans; [apply (mark_rows_evolves (fst p) now (snd p) ob Hn) | apply IH].
+  Qed.
+
+  Theorem uplink_evolves st f rx n now : 0 < now ->
+    evolves (ds_outbox st) (ds_outbox (fst (l_uplink E D apps st f rx n now))).
+  Proof.
+    intros Hn. destruct (outbox_after_uplink st f rx n now) as [l [-> | ->]].
+    - now apply marks_evolves.
+    - eapply evolves_trans; [|now apply marks_evolves].
+      destruct (ack (fc f)); [now apply ack_rows_evolves | apply reset_rows_evolves].
+  Qed.
+
+  Lemma Forall2_length {A B} (R : A -> B -> Prop) l l' : Forall2 R l l' -> length l = length l'.
+  Proof. induction 1; cbn; congruence. Qed.
+
+  (* ---------- histories: uplinks (any, accepted or not) and submissions ---------- *)
+  Definition positive_time (ev : levent) : Prop := match ev with LUp _ _ _ now => 0 < now | LSub _ => True end.
+  Fixpoint final (st : dstate) (evs : list levent) : dstate :=
+    match evs with [] => st | ev :: t => final (fst (lstep E D apps st ev)) t end.
+
+  (* every message of the queue is still there, in the same position, with a status `keeps` allows;
+     submissions only append *)
+  Theorem queue_history evs : Forall positive_time evs -> forall st,
+    exists later, evolves (ds_outbox st) (firstn (length (ds_outbox st)) (ds_outbox (final st evs))) /\
+                  ds_outbox (final st evs) = firstn (length (ds_outbox st)) (ds_outbox (final st evs)) ++ later.
+  Proof.
+    induction 1 as [|ev t Hev _ IH]; intros st; cbn [final].
+    - exists []. rewrite firstn_all, app_nil_r. split; [apply evolves_refl | reflexivity].
+    - set (st1 := fst (lstep E D apps st ev)).
+      assert (Step : exists added, evolves (ds_outbox st) (firstn (length (ds_outbox st)) (ds_outbox st1)) /\
+                                   ds_outbox st1 = firstn (length (ds_outbox st)) (ds_outbox st1) ++ added).
+      { destruct ev as [f rx n now | m]; cbn [lstep] in st1.
+        - pose proof (uplink_evolves st f rx n now Hev) as Ev. fold st1 in Ev.
+          assert (L : length (ds_outbox st1) = length (ds_outbox st)) by (symmetry; eapply Forall2_length; exact Ev).
+          exists []. rewrite <- L, firstn_all, app_nil_r. split; [exact Ev | reflexivity].
+        - unfold st1, l_create_downstream. destruct (existsb _ _); cbn [fst ds_outbox with_outbox].
+          + exists []. rewrite firstn_all, app_nil_r. split; [apply evolves_refl | reflexivity].
+          + exists [m]. rewrite firstn_app, firstn_all, Nat.sub_diag. cbn. rewrite app_nil_r. split; [apply evolves_refl | reflexivity]. }
+      destruct Step as (added & Ev1 & Sh1). destruct (IH st1) as (later & Ev2 & Sh2).
+      set (obf := ds_outbox (final st1 t)) in *. set (n0 := length (ds_outbox st)). set (n1 := length (ds_outbox st1)) in *.
+      assert (Hle : (n0 <= n1)%nat).
+      { unfold n1. rewrite Sh1, app_length, firstn_length. pose proof (Forall2_length _ _ _ Ev1) as L. rewrite firstn_length in L. unfold n0 in *. lia. }
+      exists (skipn n0 obf). split; [|now rewrite firstn_skipn].
+      (* the first n0 messages of the final queue evolve from those of st1, which evolve from st's *)
+      eapply evolves_trans; [exact Ev1|].
+      assert (F : firstn n0 obf = firstn n0 (firstn n1 obf)) by (rewrite firstn_firstn; f_equal; lia).
+      rewrite F. clear F.
+      assert (G : forall k a b, evolves a b -> evolves (firstn k a) (firstn k b)).
+      { clear. unfold evolves. intros k a b Hab. revert k. induction Hab as [|x y l l' Hxy Hl IHl]; intros [|k]; cbn; constructor; [exact Hxy | apply IHl]. }
+      apply (G n0) in Ev2. replace (firstn n0 (ds_outbox st1)) with (firstn (length (ds_outbox st)) (ds_outbox st1)) in Ev2 by reflexivity. exact Ev2.
+  Qed.
+
+  (* ---------- acknowledged only by an ACK-carrying uplink that follows a transmission ---------- *)
+  Lemma nth_marks now l : forall ob i m, nth_error ob i = Some m ->
+    exists m', nth_error (marks now l ob) i = Some m' /\ m_acktime m' = m_acktime m /\ m_created m' = m_created m.
+  Proof.
+    induction l as [|p t IH]; intros ob i m H; cbn [marks fold_left]; [exists m; auto|].
+    assert (H1 : nth_error (mark_rows (fst p) now (snd p) ob) i
+                 = Some (if m_created m =? fst p then set_times m now (m_acktime m) (snd p) else m)).
+    { unfold mark_rows. rewrite nth_error_map, H. reflexivity. }
+    destruct (IH _ _ _ H1) as (m' & A & B & C). exists m'. split; [exact A|].
+    destruct (m_created m =? fst p); cbn in B, C; auto.
+  Qed.
+  Theorem acknowledged_in_step st f rx n now i m m' :
+    nth_error (ds_outbox st) i = Some m -> nth_error (ds_outbox (fst (l_uplink E D apps st f rx n now))) i = Some m' ->
+    m_acktime m = 0 -> 0 < m_acktime m' ->
+    ack (fc f) = true /\ 0 < m_sent m /\ m_fcntup m = fcnt f.
+  Proof.
+    intros Hm Hm' H0 H1. destruct (outbox_after_uplink st f rx n now) as [l [Eq | Eq]]; rewrite Eq in Hm'.
+    - destruct (nth_marks now l _ _ _ Hm) as (x & A & B & _). rewrite A in Hm'. injection Hm' as <-. lia.
+    - destruct (ack (fc f)) eqn:Ea.
+      + assert (Ha : nth_error (ack_rows (fcnt f) now (ds_outbox st)) i
+                     = Some (if (m_fcntup m =? fcnt f) && (0 <? m_sent m) && (m_acktime m =? 0) then set_times m (m_sent m) now (m_fcntup m) else m)).
+        { unfold ack_rows. rewrite nth_error_map, Hm. reflexivity. }
+        destruct (nth_marks now l _ _ _ Ha) as (x & A & B & _). rewrite A in Hm'. injection Hm' as <-.
+        destruct (_ && _ && _) eqn:Es; [|lia].
+        apply andb_true_iff in Es. destruct Es as [Es _]. apply andb_true_iff in Es. destruct Es as [E1 E2].
+        apply N.eqb_eq in E1. apply N.ltb_lt in E2. auto.
+      + assert (Ha : nth_error (reset_rows (ds_outbox st)) i
+                     = Some (if (0 <? m_sent m) && (m_acktime m =? 0) && m_ack m then set_times m 0 (m_acktime m) 0 else m)).
+        { unfold reset_rows. rewrite nth_error_map, Hm. reflexivity. }
+        destruct (nth_marks now l _ _ _ Ha) as (x & A & B & _). rewrite A in Hm'. injection Hm' as <-.
+        destruct (_ && _ && m_ack m); cbn in B; lia.
+  Qed.
+
+  (* over a whole history: if the i-th message of the queue goes from unacknowledged to acknowledged, the
+     history contains an uplink with the ACK flag before which the message was sent, not yet acknowledged,
+     and waiting for exactly that uplink's counter *)
+  Theorem acknowledged_only_by_ack_uplink evs : forall st i m m',
+    nth_error (ds_outbox st) i = Some m -> nth_error (ds_outbox (final st evs)) i = Some m' ->
+    m_acktime m = 0 -> 0 < m_acktime m' ->
+    exists evs1 f rx n now evs2 mi,
+      evs = evs1 ++ LUp f rx n now :: evs2 /\ ack (fc f) = true /\
+      nth_error (ds_outbox (final st evs1)) i = Some mi /\ 0 < m_sent mi /\ m_acktime mi = 0 /\ m_fcntup mi = fcnt f.
+  Proof.
+    induction evs as [|ev t IH]; intros st i m m' Hm Hm' H0 H1; cbn [final] in Hm'.
+    - rewrite Hm in Hm'. injection Hm' as <-. lia.
+    - set (st1 := fst (lstep E D apps st ev)) in *.
+      (* the i-th message after the first event *)
+      assert (Hi : exists m1, nth_error (ds_outbox st1) i = Some m1).
+      { destruct ev as [f rx n now | d]; cbn [lstep] in st1.
+        - destruct (outbox_after_uplink st f rx n now) as [l [Eq | Eq]]; fold st1 in Eq; rewrite Eq.
+          + destruct (nth_marks now l _ _ _ Hm) as (x & A & _). eauto.
+          + destruct (ack (fc f)).
+            * assert (Ha : exists y, nth_error (ack_rows (fcnt f) now (ds_outbox st)) i = Some y) by (unfold ack_rows; rewrite nth_error_map, Hm; cbn; eauto).
+              destruct Ha as [y Hy]. destruct (nth_marks now l _ _ _ Hy) as (x & A & _). eauto.
+            * assert (Ha : exists y, nth_error (reset_rows (ds_outbox st)) i = Some y) by (unfold reset_rows; rewrite nth_error_map, Hm; cbn; eauto).
+              destruct Ha as [y Hy]. destruct (nth_marks now l _ _ _ Hy) as (x & A & _). eauto.
+        - unfold st1, l_create_downstream. destruct (existsb _ _); cbn [fst ds_outbox with_outbox]; [eauto|].
+          exists m. rewrite nth_error_app1; [exact Hm|]. apply nth_error_Some. congruence. }
+      destruct Hi as [m1 Hm1].
+      destruct (N.eq_dec (m_acktime m1) 0) as [E1 | E1].
+      + (* still unacknowledged: look further on *)
+        destruct (IH st1 i m1 m' Hm1 Hm' E1 H1) as (evs1 & f & rx & n & now & evs2 & mi & Eq & Ha & Hn & Hs & Hk & Hf).
+        exists (ev :: evs1), f, rx, n, now, evs2, mi. cbn [app final]. fold st1. rewrite Eq. repeat split; auto.
+      + (* acknowledged by this very event: it is an uplink with the ACK flag *)
+        destruct ev as [f rx n now | d]; cbn [lstep] in st1.
+        * destruct (acknowledged_in_step st f rx n now i m m1 Hm Hm1 H0) as (Ha & Hs & Hf); [lia|].
+          exists [], f, rx, n, now, t, m. cbn. repeat split; auto.
+        * exfalso. unfold st1, l_create_downstream in Hm1. destruct (existsb _ _); cbn [fst ds_outbox with_outbox] in Hm1.
+          -- rewrite Hm in Hm1. injection Hm1 as <-. lia.
+          -- rewrite nth_error_app1 in Hm1 by (apply nth_error_Some; congruence). rewrite Hm in Hm1. injection Hm1 as <-. lia.
+  Qed.
+End Lifecycle.
